@@ -4,6 +4,8 @@
 cd /verif
 for d in seeded/*/; do
   id=$(basename $d)
+  obs=$(/venv/bin/python -c "import json;print(json.load(open('$d/meta.json')).get('obsolete',''))")
+  if [ -n "$obs" ]; then echo "$id NOT-APPLICABLE (no longer breaks the property: $(echo "$obs" | cut -c1-60)...)"; continue; fi
   props=$(/venv/bin/python -c "import json;print(' '.join(json.load(open('$d/meta.json'))['check']['caught_by']))")
   out=$(NOSHRINK=1 tools/try_patch.sh $d/patch.diff $props 2>&1)
   if echo "$out" | grep -q "PATCH-DOES-NOT-APPLY"; then echo "$id NOT-APPLICABLE (patch no longer applies to HEAD)"; continue; fi
